@@ -1,4 +1,5 @@
 import PymoodeModel.Metrics.Diversity
+import PymoodeModel.Metrics.KernelF
 import PymoodeModel.Drv.Common
 namespace Pymoode.Drv
 open Pymoode Pymoode.Proto
@@ -71,6 +72,15 @@ def maxOnceAll (f : List (List Float)) (nObj : Nat) : Bool :=
     let mx := col.getD (argmaxFirst col) 0.0
     (col.filter fun x => !(x < mx)).length ≤ 1
 
+/-- executable hypotheses of `C13d.pcdKernelF_safe`: rectangular front, every maximum attained once,
+and no more removals than there are non-extreme points -/
+def pcdSafeHyp (f : List (List Float)) (nObj : Nat) (nRemove : Int) : Bool :=
+  let n := f.length
+  let ex := extremesFirst f nObj
+  let nonEx := ((List.range n).filter fun i => !ex.contains i).length
+  f.all (fun r => r.length == nObj) && maxOnceAll f nObj &&
+    decide ((clampRemove nRemove n nObj - 1).toNat ≤ nonEx)
+
 /-- `crowd3 <label> <n_remove> <F>` → compiled raw | fallback raw | wrapped compiled | wrapped fallback -/
 def compCrowd3 : P String := do
   let label ← tok
@@ -86,6 +96,18 @@ def compCrowd3 : P String := do
       let (_, errs) := rawMetric Float.log2 (fun x => -x) .pcd true f nObj (Float.ofNat nObj) nRemove
       if !errs.isEmpty then
         return "err kernel interpreter reports an out-of-bounds access although every maximum is attained once (contradicts C13.pcd_first_pass_safe_partial)"
+    -- the functional kernel (the one the theorems of C13d are about) against the array interpreter:
+    -- same values bit for bit, and `ok` exactly when no out-of-bounds access was logged
+    if metric == .pcd then
+      let (dI, errs) := pcdKernel f nObj (Float.ofNat nObj) nRemove
+      let (dF, okF) := pcdKernelF f nObj (Float.ofNat nObj) nRemove
+      if okF != errs.isEmpty then
+        return s!"err functional pcd kernel ok={okF} but the interpreter logged {errs.size} out-of-bounds accesses"
+      if okF && (dF.map fun (x : Ext Float) => x.toFloat.toBits) != (dI.map fun (x : Ext Float) => x.toFloat.toBits) then
+        return "err functional pcd kernel and array interpreter disagree on the crowding values"
+      -- hypotheses of C13d.pcdKernelF_safe ⇒ ok
+      if pcdSafeHyp f nObj nRemove && !okF then
+        return "err functional pcd kernel leaves its arrays although MaxOnce and the removal budget hold (contradicts C13d.pcdKernelF_safe)"
     return s!"ok {bOut ties} | {crowdOne label metric true false nRemove f} | {crowdOne label metric false false nRemove f} | {crowdOne label metric true true nRemove f} | {crowdOne label metric false true nRemove f}"
 
 end Pymoode.Drv
